@@ -4,7 +4,14 @@ claims) so that the file always validates and not_applicable stays current."""
 import json, os, sys
 ROOT = os.path.dirname(os.path.dirname(os.path.abspath(__file__)))
 sys.path.insert(0, ROOT)
-from tools.manifest_src import CHECKS, HOOK_COMMITS, NOTES
+import importlib
+from tools.manifest_src import HOOK_COMMITS, NOTES
+CHECKS = {}
+for f in sorted(os.listdir(os.path.join(ROOT, 'props'))):
+    if f.startswith('C') and f.endswith('.py'):
+        mod = importlib.import_module('props.' + f[:-3])
+        if getattr(mod, 'MANIFEST', None):
+            CHECKS[f[:-3]] = mod.MANIFEST
 props = [json.loads(l)['id'] for l in open(os.path.join(ROOT, 'properties.jsonl'))]
 checks = []
 for pid in props:
